@@ -17,7 +17,7 @@ from dataclasses import dataclass, field
 
 HEADER = """from __future__ import annotations
 from exo import proc, instr, config, DRAM
-from exo.libs.memories import DRAM_STATIC, DRAM_STACK
+from exo.libs.memories import DRAM_STATIC, DRAM_STACK, AVX2, AVX512
 from exo.libs.externs import sin, relu, select, expf, fmaxf, sigmoid, sqrt
 from exo.stdlib.scheduling import *
 
